@@ -56,15 +56,15 @@ func (l *listChooser) pick(n int, label string) int {
 }
 
 type bodyGen struct {
-	ch      chooser
-	b       strings.Builder
-	budget  int // remaining statement nodes
-	ndefer  int
-	ncond   int
-	labels  []string // labels defined so far at function top level (targets of backward gotos)
-	nlabel  int
-	inLoop  int
-	indent  int
+	ch       chooser
+	b        strings.Builder
+	budget   int // remaining statement nodes
+	ndefer   int
+	ncond    int
+	labels   []string // labels defined so far at function top level (targets of backward gotos)
+	nlabel   int
+	inLoop   int
+	indent   int
 	maxDepth int
 }
 
@@ -228,7 +228,7 @@ func c16Program(ch chooser, size int) (string, int) {
 type c16Expect struct {
 	Bounded bool
 	Sets    map[*ssa.RunDefers][]string // canonical stack strings, sorted
-	Multi   bool                         // some exit has >= 2 stacks
+	Multi   bool                        // some exit has >= 2 stacks
 	NDefers int
 }
 
